@@ -439,9 +439,32 @@ def r8(ctx, facts):
     # and an illegal character is an error exit: the Ok exit is not reachable from the reject edge - covered by the who-constructs census (R4) + this alphabet
 
 
+def r9(ctx, facts):
+    r = ctx.rule("R9", "a keyspace name taken from the server's SET_KEYSPACE answer is spread to the session case-sensitively (it is the exact name the server switched to)", floor=1)
+    n = 0
+    for b, bb in facts.callers_of("scylla::client::session::Session::use_keyspace"):
+        if b.crate != "scylla" or bb not in b.live_blocks:
+            continue
+        c = next((x for b2, x in b.calls() if b2 == bb), None)
+        if c is None or len(c.args) < 3:
+            continue
+        locs, calls, _ = backward_slice(b, c.args[1])
+        from_response = any((x.name or "").endswith("as_set_keyspace") for x in calls) or "keyspace_name" in slice_fields(b, c.args[1])
+        if not from_response:
+            continue
+        n += 1
+        df = df_of(b, facts)
+        e = df.expr_of_operand(c.args[2])
+        r.instance("server-name-is-case-sensitive:" + fn_short(b.path), e == ("const", 1),
+                   "the name reported by the server after `USE \"MixedCase\"` is re-sent to every connection with case_sensitive = %s: unquoted, the server folds it to lower case "
+                   "and all connections end up in a different keyspace (verify_use_keyspace_result compares case-insensitively, so nothing complains)" % (df.fmt_expr(e) if e else "?"), c.span)
+    if n == 0:
+        raise AnchorLost("no call of Session::use_keyspace with a name taken from a SET_KEYSPACE response found")
+
+
 def check(ctx):
     facts = inline_view(ctx.facts("default"))
-    for fn in (r1, r2, r3, r4, r5, r6, r7, r8):
+    for fn in (r1, r2, r3, r4, r5, r6, r7, r8, r9):
         try:
             fn(ctx, facts)
         except AnchorLost as ex:
